@@ -45,10 +45,17 @@ func setup4(args ...string) (handler.Handler4, error) {
 		if err != nil {
 			return Handler4, errors.New("expected a destination subnet, got: " + fields[0])
 		}
+		if _, bits := route.Dest.Mask.Size(); route.Dest.IP.To4() == nil || bits != 8*net.IPv4len {
+			// option 121 can only carry IPv4 routes (RFC 3442)
+			return Handler4, errors.New("expected an IPv4 destination subnet, got: " + fields[0])
+		}
 
 		route.Router = net.ParseIP(fields[1])
 		if route.Router == nil {
 			return Handler4, errors.New("expected a gateway address, got: " + fields[1])
+		}
+		if route.Router.To4() == nil {
+			return Handler4, errors.New("expected an IPv4 gateway address, got: " + fields[1])
 		}
 
 		routes = append(routes, route)
